@@ -44,8 +44,6 @@ def run(ctx):
                 continue
             k = (key_of(ins), ins["priority"])
             site = "ppci/%s:%s" % (ins["file"], ins["name"])
-            if k in keys and keys[k]["uid"] != ins["uid"] and keys[k]["name"] == ins["name"] and keys[k]["patterns"] == ins["patterns"] and keys[k]["file"] == ins["file"]:
-                continue  # the same declaration registered twice (e.g. a shared data isa merged in twice)
             if k in keys and keys[k]["uid"] != ins["uid"]:
                 other = keys[k]
                 ctx.ob("C09.R1", site, "`%s` (priority %s) is the only instruction with this assembler key" % (" ".join(k[0]), k[1]), (arch, " ".join(k[0])) in AMBIGUITY_OK,
